@@ -29,6 +29,49 @@ type binJob struct {
 	fixed   bool  // FixedLengthSum(length) instead of Sum()
 	length  int   // actual length (fixed only)
 	minLen  int   // hash.WithMinimalLength (fixed only; 0 = option not given)
+
+	// call sequences probing whether the hasher keeps the caller's slices (seq != ""):
+	//   alias:       h1.Write(buf[:k]); h1.Write(other); h1.Sum()  |  h2.Write(buf); h2.Sum()
+	//   alias-reset: the same, but the second digest comes from h1 after Reset()
+	//   alias-sum:   h1.Write(buf[:k]); h1.Sum(); [MD hashes: h1.Write(other); h1.Sum()]  |  h2.Write(buf); h2.Sum()
+	//   reuse:       the message is written in pieces of k bytes through one scratch buffer that the caller refills
+	// msg is buf; every digest of the sequence is compared (they are concatenated).
+	seq   string
+	k     int
+	other []byte
+}
+
+// nativeJob is what the job's digest(s) must be.
+func nativeJob(j *binJob) []byte {
+	cat := func(a, b []byte) []byte { return append(append([]byte{}, a...), b...) }
+	switch j.seq {
+	case "":
+		return nativeBin(j.kind, j.message())
+	case "alias", "alias-reset":
+		return cat(nativeBin(j.kind, cat(j.msg[:j.k], j.other)), nativeBin(j.kind, j.msg))
+	case "alias-sum":
+		d := nativeBin(j.kind, j.msg[:j.k])
+		if binKinds[j.kind].md {
+			d = cat(d, nativeBin(j.kind, cat(j.msg[:j.k], j.other)))
+		}
+		return cat(d, nativeBin(j.kind, j.msg))
+	case "reuse":
+		return nativeBin(j.kind, j.msg)
+	}
+	panic("unknown sequence " + j.seq)
+}
+
+func (j *binJob) nDigests() int {
+	switch j.seq {
+	case "alias", "alias-reset":
+		return 2
+	case "alias-sum":
+		if binKinds[j.kind].md {
+			return 3
+		}
+		return 2
+	}
+	return 1
 }
 
 func (j *binJob) message() []byte {
@@ -40,6 +83,14 @@ func (j *binJob) message() []byte {
 
 func (j *binJob) classOf() string {
 	switch {
+	case j.seq == "alias":
+		return j.kind + "/Write-subslice-Write-other+second-hasher"
+	case j.seq == "alias-reset":
+		return j.kind + "/Write-subslice-Write-other+Reset"
+	case j.seq == "alias-sum":
+		return j.kind + "/Write-subslice-Sum+second-hasher"
+	case j.seq == "reuse":
+		return j.kind + "/Sum-writes-through-reused-buffer"
 	case j.fixed && len(j.msg) == 0:
 		// degenerate declared maximum; the five SHA-3 / Keccak variants are one implementation
 		if !binKinds[j.kind].md {
@@ -59,9 +110,69 @@ func (j *binJob) classOf() string {
 type binCircuit struct {
 	Tag  frontend.Variable
 	In   [][]uints.U8
+	Oth  [][]uints.U8
 	Len  []frontend.Variable
 	Exp  [][]uints.U8
 	jobs []binJob
+}
+
+// defineSeq runs an aliasing sequence and returns the concatenated digests.
+func (c *binCircuit) defineSeq(api frontend.API, i int) ([]uints.U8, error) {
+	j := &c.jobs[i]
+	buf, oth := c.In[i], c.Oth[i]
+	h1, err := newBinHasher(api, j.kind)
+	if err != nil {
+		return nil, err
+	}
+	var out []uints.U8
+	sum := func(h hash.BinaryHasher) error {
+		d := h.Sum()
+		if len(d) != h.Size() {
+			return fmt.Errorf("%s: digest of %d bytes, Size()=%d", j.kind, len(d), h.Size())
+		}
+		out = append(out, d...)
+		return nil
+	}
+	if j.seq == "reuse" {
+		scratch := make([]uints.U8, j.k)
+		for off := 0; off < len(buf); {
+			n := copy(scratch, buf[off:]) // the caller refills its buffer ...
+			h1.Write(scratch[:n])         // ... and writes it
+			off += n
+		}
+		return out, sum(h1)
+	}
+	h1.Write(buf[:j.k]) // a sub-slice with spare capacity
+	switch j.seq {
+	case "alias", "alias-reset":
+		h1.Write(oth)
+		if err := sum(h1); err != nil {
+			return nil, err
+		}
+	case "alias-sum":
+		if err := sum(h1); err != nil {
+			return nil, err
+		}
+		if binKinds[j.kind].md { // sha2 / ripemd160 keep hashing after Sum like Go's hash.Hash
+			h1.Write(oth)
+			if err := sum(h1); err != nil {
+				return nil, err
+			}
+		}
+	}
+	// the caller's buffer must still hold what the caller put there
+	h2 := h1
+	if j.seq == "alias-reset" {
+		r, ok := h1.(interface{ Reset() })
+		if !ok {
+			return nil, fmt.Errorf("%s has no Reset", j.kind)
+		}
+		r.Reset()
+	} else if h2, err = newBinHasher(api, j.kind); err != nil {
+		return nil, err
+	}
+	h2.Write(buf)
+	return out, sum(h2)
 }
 
 func newBinHasher(api frontend.API, kind string, opts ...hash.Option) (hash.BinaryHasher, error) {
@@ -92,6 +203,22 @@ func (c *binCircuit) Define(api frontend.API) error {
 	res := make([][]uints.U8, len(c.jobs))
 	for i := range c.jobs {
 		j := &c.jobs[i]
+		if j.seq != "" {
+			d, err := c.defineSeq(api, i)
+			if err != nil {
+				return err
+			}
+			if len(d) != len(c.Exp[i]) {
+				return fmt.Errorf("%s/%s: %d digest bytes, native %d", j.kind, j.seq, len(d), len(c.Exp[i]))
+			}
+			res[i] = d
+			vals := make([]frontend.Variable, len(d))
+			for k := range vals {
+				vals[k] = d[k].Val
+			}
+			tap(api, c.Tag, i, vals...)
+			continue
+		}
 		var opts []hash.Option
 		if j.fixed && j.minLen > 0 {
 			opts = append(opts, hash.WithMinimalLength(j.minLen))
@@ -150,25 +277,28 @@ func (b *binBatch) fixedAny() bool {
 	return false
 }
 func (b *binBatch) shape() frontend.Circuit {
-	c := &binCircuit{jobs: b.jobs, In: make([][]uints.U8, len(b.jobs)), Exp: make([][]uints.U8, len(b.jobs))}
+	c := &binCircuit{jobs: b.jobs, In: make([][]uints.U8, len(b.jobs)), Oth: make([][]uints.U8, len(b.jobs)), Exp: make([][]uints.U8, len(b.jobs))}
 	if b.fixedAny() {
 		c.Len = make([]frontend.Variable, len(b.jobs))
 	}
-	for i, j := range b.jobs {
+	for i := range b.jobs {
+		j := &b.jobs[i]
 		c.In[i] = make([]uints.U8, len(j.msg))
-		c.Exp[i] = make([]uints.U8, binKinds[j.kind].size)
+		c.Oth[i] = make([]uints.U8, len(j.other))
+		c.Exp[i] = make([]uints.U8, binKinds[j.kind].size*j.nDigests())
 	}
 	return c
 }
 func (b *binBatch) assign(tag uint64, corrupt int) frontend.Circuit {
-	c := &binCircuit{jobs: b.jobs, Tag: tag, In: make([][]uints.U8, len(b.jobs)), Exp: make([][]uints.U8, len(b.jobs))}
+	c := &binCircuit{jobs: b.jobs, Tag: tag, In: make([][]uints.U8, len(b.jobs)), Oth: make([][]uints.U8, len(b.jobs)), Exp: make([][]uints.U8, len(b.jobs))}
 	if b.fixedAny() {
 		c.Len = make([]frontend.Variable, len(b.jobs))
 	}
 	for i := range b.jobs {
 		j := &b.jobs[i]
 		c.In[i] = uints.NewU8Array(j.msg)
-		d := nativeBin(j.kind, j.message())
+		c.Oth[i] = uints.NewU8Array(j.other)
+		d := nativeJob(j)
 		if i == corrupt {
 			bit := int(tag*7+3) % (8 * len(d))
 			d[bit/8] ^= 1 << (bit % 8)
@@ -183,7 +313,7 @@ func (b *binBatch) assign(tag uint64, corrupt int) frontend.Circuit {
 	return c
 }
 func (b *binBatch) expect(s int) []*big.Int {
-	d := nativeBin(b.jobs[s].kind, b.jobs[s].message())
+	d := nativeJob(&b.jobs[s])
 	out := make([]*big.Int, len(d))
 	for i := range d {
 		out[i] = big.NewInt(int64(d[i]))
@@ -193,7 +323,7 @@ func (b *binBatch) expect(s int) []*big.Int {
 func (b *binBatch) class(s int) string { return b.jobs[s].classOf() }
 func (b *binBatch) key(s int) string {
 	j := &b.jobs[s]
-	return fmt.Sprintf("%s|%x|%v|%v|%d|%d", j.kind, j.msg, j.chunks, j.fixed, j.length, j.minLen)
+	return fmt.Sprintf("%s|%x|%v|%v|%d|%d|%s|%d|%x", j.kind, j.msg, j.chunks, j.fixed, j.length, j.minLen, j.seq, j.k, j.other)
 }
 func (b *binBatch) describe(s int) map[string]any {
 	j := &b.jobs[s]
@@ -205,6 +335,12 @@ func (b *binBatch) describe(s int) map[string]any {
 		d["FixedLengthSum_length"] = j.length
 		d["WithMinimalLength"] = j.minLen
 	}
+	if j.seq != "" {
+		d["sequence"] = j.seq
+		d["k"] = j.k
+		d["other_hex"] = hex.EncodeToString(j.other)
+		d["digests_in_order"] = j.nDigests()
+	}
 	return d
 }
 func (b *binBatch) single(s int) batch { return &binBatch{jobs: []binJob{b.jobs[s]}} }
@@ -215,7 +351,8 @@ func (b *binBatch) sameShape(o batch) bool {
 	}
 	for i := range b.jobs {
 		x, y := &b.jobs[i], &ob.jobs[i]
-		if x.kind != y.kind || len(x.msg) != len(y.msg) || x.fixed != y.fixed || x.minLen != y.minLen || fmt.Sprint(x.chunks) != fmt.Sprint(y.chunks) {
+		if x.kind != y.kind || len(x.msg) != len(y.msg) || x.fixed != y.fixed || x.minLen != y.minLen || fmt.Sprint(x.chunks) != fmt.Sprint(y.chunks) ||
+			x.seq != y.seq || x.k != y.k || len(x.other) != len(y.other) {
 			return false
 		}
 	}
@@ -353,6 +490,12 @@ func packJobs(jobs []binJob, budget int) []batch {
 			continue
 		}
 		c := len(j.msg)/k.block + 1
+		if j.seq != "" && j.seq != "reuse" {
+			c += (j.k+len(j.other))/k.block + 1
+			if j.seq == "alias-sum" {
+				c += j.k/k.block + 1
+			}
+		}
 		if j.fixed && k.md {
 			c = (len(j.msg) + 72) / 64
 		} else if k.md && len(j.msg)%64 >= 56 {
